@@ -342,6 +342,14 @@ func serverStream(w *mon.W, c *mon.Case, get func(scfg) *sengine, kind string, e
 	if r.Chance(6) {
 		stream = append(stream, r.Str("\r\n", "\r\n\r\n", "\n")...)
 	}
+	if kind == "small" && r.Chance(6) {
+		// a multipart upload with text after its closing boundary (an epilogue is legal MIME
+		// and part of the body), followed by the other requests
+		ep := r.Str("\r\n", "epilogue\r\n", "text after the closing boundary", "\r\n\r\n\r\n")
+		body := "--xx\r\nContent-Disposition: form-data; name=\"a\"\r\n\r\n" + r.Str("v", "", "value of the field") + "\r\n--xx--\r\n" + ep
+		stream = append(stream, fmt.Sprintf("POST /mp-%d HTTP/1.1\r\nHost: x\r\nContent-Type: multipart/form-data; boundary=xx\r\nContent-Length: %d\r\n\r\n%s", c.I, len(body), body)...)
+		descs = append(descs, fmt.Sprintf("POST multipart/form-data, %d-byte epilogue", len(ep)))
+	}
 	for i := 0; i < nreq; i++ {
 		a := wire.GenRequest(r, tag, i, i == nreq-1, opts)
 		if kind != "big" {
